@@ -163,17 +163,23 @@ pub struct WriteBuffer {
     pub worker_channels: Vec<WorkerSender>,
     pub shutdown: AtomicBool,
     pub stats: Statistics,
+    pub shard_hasher: ShardHasher,
 }
-// the shard a key is queued in: a function of the key and the number of shards (so every generation of a key goes through ONE queue)
-pub uninterp spec fn shard_of(key: Seq<u8>, shards: int) -> int;
-impl WriteBuffer {
+// the write buffer's BuildHasher (fixed when the buffer is built): hash_one is a function of the key's bytes
+#[verifier::external_body]
+pub struct ShardHasher { _p: () }
+pub uninterp spec fn key_hash(key: Seq<u8>) -> u64;
+impl ShardHasher {
     #[verifier::external_body]
-    pub fn get_shard_id(&self, key: &[u8]) -> (s: usize)
-        requires self.sharded_buffers@.len() > 0,
-        ensures s < self.sharded_buffers@.len(), s == shard_of(key@, self.sharded_buffers@.len() as int),
+    pub fn hash_one(&self, key: &[u8]) -> (h: u64)
+        ensures h == key_hash(key@),
     {
         unimplemented!()
     }
+}
+// the shard a key is queued in: a function of the key and the number of shards (so every generation of a key goes through ONE queue)
+pub open spec fn shard_of(key: Seq<u8>, shards: int) -> int {
+    if shards > 0 { (key_hash(key) as usize as int) % shards } else { 0 }
 }
 
 // `for X in V {` over a Vec moved in (rule R-forvec)
